@@ -367,6 +367,18 @@ def run(ctx):
 
 def replay(ctx, obj):
     evorig.setup()
+    _r = obj.get('replay', obj)
+    if isinstance(_r, dict) and str(_r.get('scenario', '')).startswith('project-defined field classes'):
+        class _C(object):
+            failures = []
+            def count(self, *a, **k): pass
+            def case(self, *a, **k): pass
+            def fail(self, finding, what, rep): self.failures.append(what)
+        c = _C()
+        field_class_probe(c)
+        for w in c.failures:
+            print(w[:400])
+        return 1 if c.failures else 0
     print('re-run with VERIF_SEED=%s ./check C06; witness: %s' % (obj.get('seed'), json.dumps(obj.get('replay'))[:500]))
     from django.db.models import Q
     _, back, _ = storage_trip(Q(a=1))
